@@ -800,8 +800,8 @@ func emulatorSpin(stacks string) string {
 			if strings.HasPrefix(f, "\t") || strings.HasPrefix(f, " ") {
 				continue
 			}
-			if strings.HasPrefix(f, "runtime.") || strings.HasPrefix(f, "internal/") {
-				continue
+			if strings.HasPrefix(f, "runtime.") || strings.HasPrefix(f, "internal/") || strings.HasPrefix(f, "time.") || strings.HasPrefix(f, "sync.") || strings.HasPrefix(f, "sync/") {
+				continue // (a back-off sleep or a spin on an atomic inside a loop of the emulator)
 			}
 			if strings.HasPrefix(f, "github.com/jimsnab/go-redisemu.") && !strings.Contains(f, ".sim") {
 				if len(lines) > 12 {
